@@ -34,6 +34,8 @@ EXPECT = {
     'no_vector': lambda l: 'Raised:Key' if l == 'dict_wh' else 'Raised:Value',
     'storage': lambda l: 'Raised:IO',
     'bad_param': lambda l: 'Raised:Type',
+    'gen_raises': lambda l: 'Raised:Other',           # the generator's own RuntimeError
+    'gen_bad_event': lambda l: 'Raised:Value',        # events_to_file / the unpacking of the event
 }
 
 
@@ -93,6 +95,15 @@ def run(rep, pool, driver, tier):
                 for value in (['str', 'none', 'list'] if not quick else [r.choice(['str', 'none'])]):
                     tasks.append((dict(cfg, op='fault_run', events=es, fault={'kind': 'bad_param', 'which': which, 'value': value}),
                                   'bad_param', 'bad_param'))
+    # the events generator itself fails while it is consumed (dict_ndl) or spooled (ndl.ndl)
+    for rnd in range(1 if quick else 4):
+        for learner in ('dict_ndl', 'ndl_threading', 'ndl_openmp'):
+            n = r.choice([4, 5, 6])
+            es = base_events(r, n, False)
+            for kind in ('gen_raises', 'gen_bad_event'):
+                for pos in ([r.choice([0, n - 1])] if quick else [0, n // 2, n - 1]):
+                    tasks.append((dict(op='fault_run', learner=learner, n_jobs=2, per_job=10, per_file=3, form='generator',
+                                       events=es, fault={'kind': kind, 'pos': pos}), kind, kind))
     # storage budget sweep over every chunk-size boundary
     storage = []
     for rnd in range(2 if quick else 10):
